@@ -12,15 +12,18 @@ import (
 	"strings"
 	"testing"
 
+	"go4.org/jsonconfig"
 	"perkeep.org/pkg/blob"
 	"perkeep.org/pkg/blobserver"
 	"perkeep.org/pkg/blobserver/blobpacked"
 	"perkeep.org/pkg/blobserver/diskpacked"
 	"perkeep.org/pkg/blobserver/encrypt"
 	"perkeep.org/pkg/blobserver/files"
+	"perkeep.org/pkg/vos"
 	"perkeep.org/pkg/vsync"
 
 	"verif/bk"
+	"verif/crashlog"
 	"verif/hs"
 	"verif/sched"
 	"verif/vk"
@@ -411,6 +414,132 @@ func compactionScenario(spec *bk.Spec) *sched.Config {
 		}}
 }
 
+// diskScenario: the two disk stores with a transient error injected at every
+// file-system level call (files: every VFS call of an in-memory recording VFS;
+// diskpacked: every create/write/write-at/truncate/sync on its pack files
+// through the os-import shim, with a harness KV as index whose calls are fault
+// sites too).
+func diskScenario(kind string, seq []int) *sched.Config {
+	name := kind + "-fsfaults/" + seqName(seq)
+	spec := &bk.Spec{Name: kind + "-fsfaults", Removes: true}
+	return &sched.Config{Name: name, Bound: 0, ChoiceBound: 1, SigPrefix: "C13|" + spec.Name,
+		Body: func(x *sched.X) {
+			injecting := false
+			nfaults := 0
+			var faultLog []string
+			fault := func(label string) error {
+				if injecting && x.Choose("fault@"+label, 2) == 1 {
+					nfaults++
+					faultLog = append(faultLog, label)
+					return hs.ErrInjected
+				}
+				return nil
+			}
+			var sto blobserver.Storage
+			var leftovers func() []string
+			switch kind {
+			case "files":
+				im := crashlog.NewImage()
+				im.Dirs["/root"] = true
+				vfs := crashlog.NewMemVFS(im, nil)
+				vfs.Fail = func(op, p string) error { return fault("vfs." + op) }
+				sto = filesSto{files.NewStorage(vfs, "/root")}
+				leftovers = func() []string {
+					var l []string
+					for f := range im.Files {
+						if strings.Contains(f, ".tmp") {
+							l = append(l, f)
+						}
+					}
+					return l
+				}
+			case "diskpacked":
+				dir := vk.Scratch("c13dp")
+				defer os.RemoveAll(dir)
+				kv := hs.NewKV(fmt.Sprintf("c13dp-%p", x))
+				kv.Hook = func(_, op, key string) error { return fault("kv:diskpacked-index." + op) }
+				hs.RegisterKV(kv)
+				defer hs.UnregisterKV(kv.Name)
+				vos.Install(nil, func(op, p string) error { return fault("file." + op) })
+				defer vos.Install(nil, nil)
+				s, err := blobserver.CreateStorage("diskpacked", nil, jsonconfig.Obj{"path": dir, "maxFileSize": float64(100 << 10), "metaIndex": map[string]any{"type": "verifkv", "name": kv.Name}})
+				if err != nil {
+					panic(err)
+				}
+				defer s.(io.Closer).Close()
+				sto = s
+				leftovers = func() []string { return nil }
+			}
+			ref := hs.NewRefMap()
+			sb := universe[1]
+			if _, err := blobserver.Receive(ctx, sto, sb.Ref, bytes.NewReader(sb.Data)); err != nil {
+				panic(err)
+			}
+			ref.Put(sb)
+			uncertain := map[string]hs.Blob{}
+			sites := func() string {
+				u := append([]string{}, faultLog...)
+				sort.Strings(u)
+				return "faults=" + strings.Join(u, ",")
+			}
+			xfail := func(sig, what string) { x.Fail(sig+"|"+sites(), what) }
+			x.Go("client", func() {
+				for _, o := range seq {
+					before := nfaults
+					injecting = true
+					runOp(sto, spec, o, ref, uncertain, &injecting, func(sig, what string) {
+						if nfaults == before {
+							xfail(opNames[o]+"|"+sig+"-without-fault", fmt.Sprintf("ops [%s]: %s (no fault was injected during this call)", seqName(seq), what))
+						}
+					}, func(sig, what string) {
+						xfail(opNames[o]+"|"+sig, fmt.Sprintf("ops [%s], faults at %v: %s", seqName(seq), faultLog, what))
+					})
+					injecting = false
+					if l := leftovers(); len(l) > 0 {
+						xfail(opNames[o]+"|temp-file-left-behind", fmt.Sprintf("ops [%s], faults at %v: after the call returned, temporary files remain: %v", seqName(seq), faultLog, l))
+					}
+				}
+			})
+			x.Run()
+			injecting = false
+			if x.Deadlock {
+				xfail("hang", fmt.Sprintf("ops [%s], faults at %v: call never returned", seqName(seq), faultLog))
+				return
+			}
+			if x.Horizon || x.Failed() {
+				return
+			}
+			for _, b := range uncertain {
+				rc, _, err := sto.Fetch(ctx, b.Ref)
+				if err == nil {
+					rc.Close()
+					ref.Put(b)
+				} else if errors.Is(err, os.ErrNotExist) {
+					ref.Del(b)
+				} else {
+					xfail("error-persists|fetch", fmt.Sprintf("ops [%s], faults at %v: after faults stopped Fetch(%s) still fails: %v", seqName(seq), faultLog, b.Name, err))
+					return
+				}
+			}
+			if m := hs.Battery(sto, ref, universe, hs.BatteryOpt{Light: true}); m != nil {
+				xfail("after-fault|"+m.Kind, fmt.Sprintf("ops [%s], faults at %v: healthy store disagrees with the reference {%s}: %s", seqName(seq), faultLog, ref.Key(), m.Detail))
+				return
+			}
+			for _, b := range universe {
+				if _, err := blobserver.Receive(ctx, sto, b.Ref, bytes.NewReader(b.Data)); err != nil {
+					xfail("error-persists|receive", fmt.Sprintf("ops [%s], faults at %v: after faults stopped Receive(%s) fails: %v", seqName(seq), faultLog, b.Name, err))
+					return
+				}
+				ref.Put(b)
+			}
+			if m := hs.Battery(sto, ref, universe, hs.BatteryOpt{Light: true}); m != nil {
+				xfail("after-fault-rereceive|"+m.Kind, fmt.Sprintf("ops [%s], faults at %v: after re-receiving everything: %s", seqName(seq), faultLog, m.Detail))
+			}
+		}}
+}
+
+type filesSto struct{ *files.Storage }
+
 func sequences(maxLen int) [][]int {
 	var out [][]int
 	var rec func(cur []int)
@@ -436,6 +565,12 @@ func scenarios() []*sched.Config {
 	}
 	specs := bk.Specs(vk.Thorough())
 	var out []*sched.Config
+	// the file-system level scenarios are few and cheap: first, so that a budget cut never starves them
+	for _, kind := range []string{"files", "diskpacked"} {
+		for _, seq := range sequences(maxLen) {
+			out = append(out, diskScenario(kind, seq))
+		}
+	}
 	for i := range specs {
 		sp := &specs[i]
 		for _, seq := range sequences(maxLen) {
@@ -444,6 +579,7 @@ func scenarios() []*sched.Config {
 		if sp.Name == "encrypt" {
 			out = append(out, compactionScenario(sp))
 		}
+
 	}
 	return out
 }
